@@ -1,58 +1,76 @@
 (* C20 -- switching the session keyspace is applied everywhere or reported.
    Model/Keyspace.v: Session._set_keyspace_for_all_pools (remaining-callback set, error dict) over HostConnection pools whose
-   connection answers ok / invalid / anything else, or that have no connection / are shut down / already have the keyspace;
-   completions arrive in ANY order (any list of KComplete events, repeated or spurious ones included). Repaired code. *)
+   connection answers ok / invalid / anything else, or that have no connection / are shut down / already have the keyspace,
+   and HostConnectionPool (v1/v2) pools that are empty at that moment; completions arrive in ANY order, pools without
+   connection reconnect at any time (KReconnect); a switch may start from ANY well-formed state (kwf) -- in particular the
+   state left by a previous, failed switch (reinit).  k_srv is the keyspace really selected on the server side.  Repaired code. *)
 From Coq Require Import ZArith List Bool Lia.
 From Verif Require Import Pool Keyspace C20_proofs.
 Import ListNotations.
 Local Open Scope Z_scope.
 
 (* if the switch reported success (final callback called with no errors), every pool that is not shut down has the new
-   keyspace on its connection, or -- having no connection right now -- will select it on the next connection it opens *)
-Theorem C20_success_means_all : forall (outs : list outcome) (ops : list kop) (p : kpool),
-  let s := krun (kinit outs) ops in
+   keyspace selected on the server side of its connection -- including connections opened after the switch -- and a
+   HostConnection without connection will select it on the next connection it opens *)
+Theorem C20_success_means_all : forall (s0 : kstate) (ops : list kop) (p : kpool),
+  kwf s0 ->
+  let s := krun s0 ops in
   In [] (calls s) -> In p (pools s) -> k_shut p = false ->
-  (k_has p = true -> k_connks p = 2) /\ (k_has p = false -> k_ks p = 2).
-Proof. intros outs ops p s H. apply k_success; [apply KInv_run, KInv_init|exact H]. Qed.
+  (k_has p = true -> k_srv p = 2) /\ (k_has p = false -> k_legacy p = false -> k_ks p = 2).
+Proof. intros s0 ops p W s H. apply k_success; [apply KInv_run, KInv_wf, W|exact H]. Qed.
 Print Assumptions C20_success_means_all.
 
 (* if selecting the keyspace failed on any pool, every invocation of the final callback carries an error for that pool *)
-Theorem C20_any_error_reported : forall (outs : list outcome) (ops : list kop) (i : nat) (p : kpool) (a : list (nat * Z)),
-  let s := krun (kinit outs) ops in
+Theorem C20_any_error_reported : forall (s0 : kstate) (ops : list kop) (i : nat) (p : kpool) (a : list (nat * Z)),
+  kwf s0 ->
+  let s := krun s0 ops in
   nth_error (pools s) i = Some p -> k_failed p = true -> In a (calls s) -> In i (map fst a) /\ a <> [].
 Proof.
-  intros outs ops i p a s Hn Hf Hin.
-  assert (H : In i (map fst a)) by (apply (k_error_reported s (KInv_run ops _ (KInv_init outs)) i p Hn Hf a Hin)).
+  intros s0 ops i p a W s Hn Hf Hin.
+  assert (H : In i (map fst a)) by (apply (k_error_reported s (KInv_run ops _ (KInv_wf _ W)) i p Hn Hf a Hin)).
   split; [exact H|]. intros ->. destruct H.
 Qed.
 Print Assumptions C20_any_error_reported.
 
 (* the switch always completes, exactly once: as soon as no USE request is outstanding on any connection -- including when
    pools had no connection or were shut down, and for zero pools -- the final callback has run exactly once; never twice *)
-Theorem C20_always_completes : forall (outs : list outcome) (ops : list kop),
-  let s := krun (kstep (kinit outs) KStart) ops in
+Theorem C20_always_completes : forall (s0 : kstate) (ops : list kop),
+  kwf s0 ->
+  let s := krun (kstep s0 KStart) ops in
   (length (calls s) <= 1)%nat /\
   ((forall p, In p (pools s) -> k_pending p = false) -> length (calls s) = 1%nat).
 Proof.
-  intros outs ops s. apply k_completes.
-  - apply KInv_run, KInv_step, KInv_init.
+  intros s0 ops W s. apply k_completes.
+  - apply KInv_run, KInv_step, KInv_wf, W.
   - apply started_after_start.
 Qed.
 Print Assumptions C20_always_completes.
 
+(* the starting points covered: any list of scripted pools, and any state reached by a previous switch, re-scripted *)
+Theorem C20_starting_points : forall (outs outs2 : list outcome) (ops : list kop),
+  kwf (kinit outs) /\ kwf (reinit (krun (kinit outs) ops) outs2).
+Proof. intros. split; [apply kwf_init|apply kwf_reinit, KInv_run, KInv_init]. Qed.
+Print Assumptions C20_starting_points.
+
 (* a pool created while keyspace switches are landing -- before it reads the session keyspace, between that read and its
-   registration, and during every catch-up round trip, any number of them -- is registered on exactly the session's keyspace *)
-Theorem C20_new_pool_matches_session : forall (ks0 : Z) (s0 s1 : list Z) (rounds : list (list Z)),
-  fst (fst (create_pool ks0 s0 s1 rounds)) = snd (fst (create_pool ks0 s0 s1 rounds)).
-Proof. intros. unfold create_pool. apply catchup_eq. Qed.
+   registration, and during every catch-up round trip, any number of them -- is registered only on exactly the session's
+   keyspace; a failed catch-up USE never registers it *)
+Theorem C20_new_pool_matches_session : forall (ks0 : Z) (s0 s1 : list Z) (rounds : list (bool * list Z)) (p s n : Z),
+  create_pool ks0 s0 s1 rounds = (true, p, s, n) -> p = s.
+Proof. intros ks0 s0 s1 rounds p s n H. unfold create_pool in H. eapply catchup_eq; [exact H|reflexivity]. Qed.
 Print Assumptions C20_new_pool_matches_session.
 
-Example C20_nonvacuous_create : create_pool 1 [] [2] [[3]] = (3, 3, 2) /\ create_pool 1 [] [2] [[3]; [1]; [2]] = (2, 2, 4).
-Proof. vm_compute. split; reflexivity. Qed.
+Example C20_nonvacuous_create :
+  create_pool 1 [] [2] [(false, [3])] = (true, 3, 3, 2) /\ create_pool 1 [] [2] [(false, [3]); (false, [1]); (false, [2])] = (true, 2, 2, 4) /\
+  create_pool 1 [] [2] [(true, [])] = (false, 1, 2, 1).
+Proof. vm_compute. repeat split. Qed.
 
 Example C20_nonvacuous :
-  let s := krun (kinit [POk; PInvalid; PNoConn; PShut; PConnErr; PSame]) [KStart; KComplete 4; KComplete 0; KComplete 1] in
+  let s := krun (kinit [POk; PInvalid; PNoConn; PShut; PConnErr; PSame; PEmptyV2]) [KStart; KComplete 4; KComplete 0; KComplete 1; KReconnect 4; KReconnect 6] in
   calls s = [[(1%nat, 1); (4%nat, 2)]] /\ remaining s = [] /\
+  map k_srv (pools s) = [2; 1; -1; 1; 2; 2; 2] /\
+  (* the retry of the same USE after the failure: pool 1 answers ok this time *)
+  calls (krun (reinit s [POk; POk; PNoConn; PShut; POk; PSame; POk]) [KStart; KComplete 1]) = [[]] /\
   calls (krun (kinit [POk; PNoConn; PShut]) [KStart; KComplete 0]) = [[]] /\
   calls (krun (kinit [PNoConn]) [KStart]) = [[]].
 Proof. vm_compute. repeat split. Qed.
